@@ -42,7 +42,9 @@ def intake() -> None:
         if os.path.exists(n):
             shutil.copy(n, os.path.join(d, "notes.md"))
         json.dump({"id": key, "anchored_in_property": c["id"][1:], "confirmed_by_me": {
-            "how": "tools/confirm_refactor.sh: fresh scratch worktree, git apply, whole suite", "suite_with_change": c["suite_summary"],
+            "how": ("tools/confirm_refactor_group.sh: fresh scratch worktree; this diff applies on its own to the clean HEAD; whole suite run once with the five "
+                    "refactorings of the property stacked") if c.get("confirmed_as_group") else "tools/confirm_refactor.sh: fresh scratch worktree, git apply, whole suite",
+            "suite_with_change": c["suite_summary"],
             "diffstat": c["diffstat"]}}, open(os.path.join(d, "meta.json"), "w"), indent=1)
         print("INTAKE", key)
 
